@@ -15,7 +15,7 @@ def run(ctx):
     r, items = M.mc(ctx, "MetaDB_ent.cfg", "ent", {"MaxOps": "= 3"}, INV, PROP, export=True)
     items = M.sample(ctx, items, 3000 if th else 500, 1)
     if th:
-        M.mc(ctx, "MetaDB_ent.cfg", "ent deep", {"MaxOps": "= 4"}, INV, PROP, timeout=3000, coverage=True)
+        M.mc(ctx, "MetaDB_ent.cfg", "ent deep", {"MaxOps": "= 4"}, INV, PROP, timeout=7200, coverage=True)
         # liveness of the properties: the type-confusion defect switched back on renames a namespace
         M.expect_model_violation(ctx, "MetaDB_ent.cfg", "bug ns-typeconf", {"Bugs": '= {"ns-typeconf"}', "MaxOps": "= 2"},
                                  INV, PROP, "NamespaceNeverRenamed")
